@@ -21,13 +21,13 @@ import (
 
 	"github.com/tink-crypto/tink-go/v2/insecuresecretdataaccess"
 	"github.com/tink-crypto/tink-go/v2/key"
+	tinkpb "github.com/tink-crypto/tink-go/v2/proto/tink_go_proto"
 	"github.com/tink-crypto/tink-go/v2/secretdata"
 	"github.com/tink-crypto/tink-go/v2/streamingaead"
 	"github.com/tink-crypto/tink-go/v2/streamingaead/aesctrhmac"
 	"github.com/tink-crypto/tink-go/v2/streamingaead/aesgcmhkdf"
 	"github.com/tink-crypto/tink-go/v2/streamingaead/subtle"
 	"github.com/tink-crypto/tink-go/v2/tink"
-	tinkpb "github.com/tink-crypto/tink-go/v2/proto/tink_go_proto"
 	"verif/dump"
 	"verif/env"
 	"verif/h"
@@ -67,27 +67,29 @@ func configs(thorough bool) []cfg {
 		mk("CTRHMAC", 32, 32, "SHA256", "SHA256", 32, 2, 0, "keyset"),
 	}
 	if thorough {
+		// Every value of every dimension appears, and the dimensions that drive the hand-written cursor logic
+		// (segment size, first-segment offset) are crossed fully with scheme and derived key size; hash / tag
+		// choices rotate (they only parameterise stdlib calls).
+		hks := []string{"SHA1", "SHA256", "SHA512"}
+		ctrTags := [][2]any{{"SHA1", 10}, {"SHA1", 20}, {"SHA256", 16}, {"SHA256", 32}, {"SHA512", 64}, {"SHA512", 33}}
+		n := 0
 		for _, scheme := range []string{"GCMHKDF", "CTRHMAC"} {
 			for _, ks := range []int{16, 32} {
-				for _, hk := range []string{"SHA1", "SHA256", "SHA512"} {
-					for _, extra := range []int{0, 1, 15, 24} {
-						for _, off := range []int{0, 1, 5} {
-							tags := [][2]any{{"", 16}}
-							if scheme == "CTRHMAC" {
-								tags = [][2]any{{"SHA1", 10}, {"SHA1", 20}, {"SHA256", 16}, {"SHA256", 32}, {"SHA512", 64}, {"SHA512", 33}}
-							}
-							for ti, t := range tags {
-								// thin the product: every value of every dimension appears with every value of the
-								// segment-size and offset dimensions (those drive the hand-written cursor logic)
-								if (ti+extra+off+ks)%3 != 0 && !(hk == "SHA256" && ti == 0) {
-									continue
-								}
-								cs = append(cs, mk(scheme, 32, ks, hk, t[0].(string), t[1].(int), extra, off, "subtle"))
-							}
+				for _, extra := range []int{0, 1, 15, 24} {
+					for _, off := range []int{0, 1, 5} {
+						n++
+						tagAlg, tagSize := "", 16
+						if scheme == "CTRHMAC" {
+							t := ctrTags[n%len(ctrTags)]
+							tagAlg, tagSize = t[0].(string), t[1].(int)
 						}
+						cs = append(cs, mk(scheme, 32, ks, hks[n%3], tagAlg, tagSize, extra, off, "subtle"))
 					}
 				}
 			}
+		}
+		for i, t := range ctrTags {
+			cs = append(cs, mk("CTRHMAC", 32, 16+16*(i%2), hks[i%3], t[0].(string), t[1].(int), i%3, 0, "subtle"))
 		}
 		cs = append(cs, mk("GCMHKDF", 16, 16, "SHA256", "", 16, 200, 0, "keyset"), mk("CTRHMAC", 32, 16, "SHA1", "SHA1", 20, 0, 0, "keyset"),
 			mk("CTRHMAC", 32, 32, "SHA512", "SHA512", 64, 100, 0, "keyset"))
